@@ -111,6 +111,19 @@ def table_lookup(tab, P):
     return A.sym_array([BVS(o, U8) for o in out], U8)
 
 
+def _array_to_F2_with_images(n, imgs):
+    """run the real clifford_array_to_F2 with PauliOperator.from_full_matrix (eigen-decomposition, float thresholds) replaced by a stand-in
+    that returns prescribed images U X_k U^dag, U Z_k U^dag (F2 bits, in call order X_0, Z_0, X_1, Z_1, ...)"""
+    it = iter(imgs)
+    real = PauliOperator.__dict__['from_full_matrix']
+    PauliOperator.from_full_matrix = staticmethod(lambda m, *a, **k: PauliOperator(next(it)))
+    try:
+        r_, S_ = cl.clifford_array_to_F2(np.eye(2 ** n))
+    finally:
+        PauliOperator.from_full_matrix = real
+    return r_, S_
+
+
 # ---------------------------------------------------------------- replayers
 def replay(p):
     what = p['what']
@@ -121,6 +134,17 @@ def replay(p):
         lhs = f((PauliOperator(P) @ PauliOperator(Q)).F2)
         rhs = (PauliOperator(f(P)) @ PauliOperator(f(Q))).F2
         return (not np.array_equal(lhs, rhs)), f'phi(PQ) != phi(P)phi(Q) for r={r.tolist()} S={Sm.tolist()} P={P.tolist()} Q={Q.tolist()}'
+    if what == 'array_to_F2':
+        n = p['n']
+        imgs = [np.array(v, dtype=U8) for v in p['imgs']]
+        r_, S_ = _array_to_F2_with_images(n, imgs)
+        for k in range(2 * n):
+            e = np.zeros(2 * n + 2, dtype=U8)
+            e[2 + k] = 1
+            got = cl.apply_clifford_on_pauli(e, r_, S_)
+            if not np.array_equal(got, imgs[k]):
+                return True, f'clifford_array_to_F2: generator {k} has image {imgs[k].tolist()} under U, but the returned (r,S) maps it to {np.asarray(got).tolist()}'
+        return False, 'tableau reproduces the generator images'
     if what == 'inj':
         r, Sm, P, Q = arr('r'), arr('S'), arr('P'), arr('Q')
         a = cl.apply_clifford_on_pauli(P, r, Sm)
@@ -255,6 +279,47 @@ def run(chk):
     nmax = 2
     chk.bound(symbolic_S='all of Sp(2,F2) and Sp(4,F2) x all phase vectors x all ordered pairs of phased Paulis (one query each)',
               histories='all shapes of length <= %d on <= %d qubits with symbolic gate names and symbolic queried Pauli; queries after every prefix' % ((3, 2) if quick else (4, 3)))
+    # ---- 0. clifford_array_to_F2: whatever Hermitian Paulis the images U X_k U^dag, U Z_k U^dag are, the returned (r, S) maps the generators to them
+    chk.fn('numqi.sim.clifford.clifford_array_to_F2 (phase / column bookkeeping; from_full_matrix replaced by symbolic images)')
+    chk.stub('PauliOperator.from_full_matrix inside clifford_array_to_F2 -> arbitrary Hermitian phased Pauli (symbolic F2 bits): recognising the Pauli from a dense matrix stays outside')
+    for n in (1, 2, 3):
+        imgs = [bits(f'img{n}_{k}', 2 * n + 2) for k in range(2 * n)]            # call order X_0, Z_0, X_1, Z_1, ...
+        herm = []
+        for im in imgs:
+            ip = A.plain(im)
+            par = S.as_sc(0) if False else None
+            acc = ip[2] & ip[2 + n]
+            for j in range(1, n):
+                acc = acc ^ (ip[2 + j] & ip[2 + n + j])
+            herm.append(S.as_sb(ip[1] == acc).n)                                   # Hermitian: the i-bit equals the parity of the number of Y letters
+        try:
+            paths, st = H.run_paths(lambda n=n, imgs=imgs: _array_to_F2_with_images(n, imgs), herm)
+        except S.EngineError as e:
+            chk.engine_error(f'clifford_array_to_F2 n={n}', e)
+            paths = []
+        chk.add_path_stats(st)
+        chk.configurations += 1
+        rpa = ('c07', lambda m, imgs=imgs, n=n: {'what': 'array_to_F2', 'n': n, 'imgs': [H.eval_array(a_, H.model_env(m, [a_])).tolist() for a_ in imgs]})
+        for pi, path in enumerate(paths):
+            pre = herm + path.pc
+            if path.status != 'return':
+                chk.add(f'clifford_array_to_F2 raises {type(path.value).__name__} [n={n}] path {pi}', pre, ir.FALSE, key='clifford_array_to_F2 raises', replay=rpa)
+                continue
+            r_, S_ = path.value
+            for k in range(2 * n):
+                # call order (X_0, Z_0, X_1, ...) -> generator index (X_k at k, Z_k at n+k)
+                img = imgs[2 * k] if k < n else imgs[2 * (k - n) + 1]
+                e = np.zeros(2 * n + 2, dtype=U8)
+                e[2 + k] = 1
+                try:
+                    with path.resume():
+                        with facade.patched():
+                            got = cl.apply_clifford_on_pauli(A.sym_array([S.bv_const(int(v), U8) for v in e], U8), r_, S_)
+                    c_ = eq_arr(got, img)
+                except S.EngineError:
+                    raise
+                chk.add(f'clifford_array_to_F2: (r,S) maps generator {k} to its prescribed image, for every Hermitian image [n={n}] path {pi}', pre, c_,
+                        key='clifford_array_to_F2 phase/column bookkeeping', replay=rpa)
     # ---- 1. automorphism / injectivity, 2. composition
     for n in range(1, nmax + 1):
         r = bits(f'r{n}', 2 * n)
